@@ -1529,8 +1529,15 @@ class Engine:
         if blanket and (trait, method) not in s.model_first:
             # the blanket impl applies if its bound has an impl for this type in the dump
             for f, bounds in blanket:
-                need = re.findall(r":\s*([A-Za-z_][\w:]*)", bounds)
-                need = [strip_generics(n) for n in need if strip_generics(n) not in ("Sized", "Debug", "Clone")]
+                need = []
+                for clause in split_top(re.sub(r"^<|>\s*$", "", bounds.replace(" where ", ", ").strip().lstrip("<")).replace("> ", ", ", 1) if False else _bound_clauses(bounds)):
+                    if ":" not in clause:
+                        continue
+                    rhs = clause.split(":", 1)[1]
+                    for b in split_top(rhs, "+"):
+                        b = strip_generics(b.strip().lstrip("?"))
+                        if b and b not in ("Sized", "Debug", "Clone", "Send", "Sync") and not b.startswith("'"):
+                            need.append(b)
                 if all(any(r[0] == n and r[6] == sname for r in s.impls) or n in ("Into",) for n in need):
                     return s.call_fn(f, args)
         # trait default method in the dump
@@ -1634,6 +1641,25 @@ def _match_open(t, o, c):
             if d == 0:
                 return i
     return None
+
+
+def _bound_clauses(bounds):
+    """`<T: A + B, U> X: C<Y = Z>, ...` -> ['T: A + B', 'U', 'X: C<Y = Z>']"""
+    b = bounds.strip()
+    out = []
+    if b.startswith("<"):
+        d = 0
+        for i, c in enumerate(b):
+            if c == "<":
+                d += 1
+            elif c == ">" and b[i - 1] != "-":
+                d -= 1
+                if d == 0:
+                    break
+        out += split_top(b[1:i])
+        b = b[i + 1:]
+    out += split_top(b.strip().rstrip(","))
+    return [x.strip() for x in out if x.strip()]
 
 
 def _norm_ty(t):
